@@ -1,5 +1,11 @@
 import PiqpProofs.Basic
 import PiqpModel.Control
+import Mathlib.Tactic.Linarith
+import Mathlib.Tactic.Ring
+import Mathlib.Tactic.NormNum
+import Mathlib.Data.Rat.Defs
+import Mathlib.Algebra.BigOperators.Ring.Finset
+import Mathlib.Algebra.Order.BigOperators.Group.Finset
 
 /-!
 # C03 — verdicts are never contradicted by exact ground truth (decision logic part)
@@ -27,4 +33,167 @@ theorem dual_verdict_requires_rule (st : Settings K) (cs : Consts K) (ops : Loop
       (ops.dinfR (loopG st cs ops c s info).1.2.1) = true := by
   fun_induction loopG st cs ops c s info <;> simp_all [dualInfeasRuleS]
 
+end Piqp.C03
+
+/-!
+## Soundness of the ground truth
+
+Check C03 classifies every generated problem outside the solver, in exact rational arithmetic, and re-verifies the
+certificate it found (`vlib/exactlp.py: verify_feasible / verify_recession` and the Farkas vector). The two theorems below say
+what those certificates mean: a Farkas vector excludes every feasible point, a recession direction from a feasible point
+makes the objective unbounded below. So a PIQP_SOLVED on a Farkas-certified problem, or on a recession-certified one, is
+contradicted by a theorem, not by another numerical solver.
+-/
+
+namespace Piqp.C03
+set_option linter.unusedVariables false
+section groundtruth
+open Finset
+variable {K : Type} [Field K] [LinearOrder K] [IsStrictOrderedRing K]
+variable {n p m : Nat}
+
+/-- a convex QP in the user's terms: `min ½xᵀPx + cᵀx  s.t.  Ax = b, Gx ≤ h, lb ≤ x ≤ ub` (absent bounds = `none`) -/
+structure QP (K : Type) (n p m : Nat) where
+  P : Fin n → Fin n → K
+  c : Fin n → K
+  A : Fin p → Fin n → K
+  b : Fin p → K
+  G : Fin m → Fin n → K
+  h : Fin m → K
+  lb : Fin n → Option K
+  ub : Fin n → Option K
+
+def QP.Feasible (q : QP K n p m) (x : Fin n → K) : Prop :=
+  (∀ i, ∑ j, q.A i j * x j = q.b i) ∧ (∀ i, ∑ j, q.G i j * x j ≤ q.h i) ∧
+  (∀ j l, q.lb j = some l → l ≤ x j) ∧ (∀ j u, q.ub j = some u → x j ≤ u)
+
+/-- a Farkas certificate of primal infeasibility, as the exact classifier of check C03 produces and re-verifies -/
+structure Farkas (q : QP K n p m) (y : Fin p → K) (z : Fin m → K) (wl wu : Fin n → K) : Prop where
+  z_nonneg : ∀ i, 0 ≤ z i
+  wl_nonneg : ∀ j, 0 ≤ wl j
+  wu_nonneg : ∀ j, 0 ≤ wu j
+  wl_absent : ∀ j, q.lb j = none → wl j = 0
+  wu_absent : ∀ j, q.ub j = none → wu j = 0
+  stat : ∀ j, (∑ i, q.A i j * y i) + (∑ i, q.G i j * z i) - wl j + wu j = 0
+  neg : (∑ i, q.b i * y i) + (∑ i, q.h i * z i) - (∑ j, (q.lb j).getD 0 * wl j) + (∑ j, (q.ub j).getD 0 * wu j) < 0
+
+/-- **C03 ground truth, soundness of the infeasibility certificate.** -/
+theorem farkas_sound (q : QP K n p m) (y : Fin p → K) (z : Fin m → K) (wl wu : Fin n → K) (hF : Farkas q y z wl wu) :
+    ¬ ∃ x, q.Feasible x := by
+  rintro ⟨x, hA, hG, hl, hu⟩
+  -- 0 = Σ_j x_j * stat_j
+  have h0 : ∑ j, x j * ((∑ i, q.A i j * y i) + (∑ i, q.G i j * z i) - wl j + wu j) = 0 :=
+    Finset.sum_eq_zero fun j _ => by rw [hF.stat j]; ring
+  have eA : ∑ j, x j * (∑ i, q.A i j * y i) = ∑ i, q.b i * y i := by
+    simp only [Finset.mul_sum]
+    rw [Finset.sum_comm]
+    refine Finset.sum_congr rfl fun i _ => ?_
+    rw [← hA i, Finset.sum_mul]
+    exact Finset.sum_congr rfl fun j _ => by ring
+  have eG : ∑ j, x j * (∑ i, q.G i j * z i) = ∑ i, (∑ j, q.G i j * x j) * z i := by
+    simp only [Finset.mul_sum, Finset.sum_mul]
+    rw [Finset.sum_comm]
+    exact Finset.sum_congr rfl fun i _ => Finset.sum_congr rfl fun j _ => by ring
+  have lG : ∑ i, (∑ j, q.G i j * x j) * z i ≤ ∑ i, q.h i * z i :=
+    Finset.sum_le_sum fun i _ => mul_le_mul_of_nonneg_right (hG i) (hF.z_nonneg i)
+  have lL : ∑ j, (q.lb j).getD 0 * wl j ≤ ∑ j, x j * wl j := by
+    refine Finset.sum_le_sum fun j _ => ?_
+    cases hlb : q.lb j with
+    | none => rw [hF.wl_absent j hlb]; simp
+    | some l => simp only [Option.getD_some]; exact mul_le_mul_of_nonneg_right (hl j l hlb) (hF.wl_nonneg j)
+  have lU : ∑ j, x j * wu j ≤ ∑ j, (q.ub j).getD 0 * wu j := by
+    refine Finset.sum_le_sum fun j _ => ?_
+    cases hub : q.ub j with
+    | none => rw [hF.wu_absent j hub]; simp
+    | some u => simp only [Option.getD_some]; exact mul_le_mul_of_nonneg_right (hu j u hub) (hF.wu_nonneg j)
+  have hsplit : ∑ j, x j * ((∑ i, q.A i j * y i) + (∑ i, q.G i j * z i) - wl j + wu j) =
+      (∑ j, x j * (∑ i, q.A i j * y i)) + (∑ j, x j * (∑ i, q.G i j * z i)) - (∑ j, x j * wl j) + (∑ j, x j * wu j) := by
+    rw [← Finset.sum_add_distrib, ← Finset.sum_sub_distrib, ← Finset.sum_add_distrib]
+    exact Finset.sum_congr rfl fun j _ => by ring
+  have := hF.neg
+  rw [hsplit, eA, eG] at h0
+  linarith
+
+def QP.obj (q : QP K n p m) (x : Fin n → K) : K := (1 / 2) * (∑ i, x i * ∑ j, q.P i j * x j) + ∑ j, q.c j * x j
+
+/-- a recession direction along which the objective decreases, from a feasible point: the certificate of
+    "unbounded below" the exact classifier of check C03 produces and re-verifies -/
+structure Recession (q : QP K n p m) (x0 d : Fin n → K) : Prop where
+  feas : q.Feasible x0
+  sym : ∀ i j, q.P i j = q.P j i
+  Pd : ∀ i, ∑ j, q.P i j * d j = 0
+  Ad : ∀ i, ∑ j, q.A i j * d j = 0
+  Gd : ∀ i, ∑ j, q.G i j * d j ≤ 0
+  dl : ∀ j l, q.lb j = some l → 0 ≤ d j
+  du : ∀ j u, q.ub j = some u → d j ≤ 0
+  cd : ∑ j, q.c j * d j < 0
+
+theorem ray_feasible (q : QP K n p m) (x0 d : Fin n → K) (hR : Recession q x0 d) (t : K) (ht : 0 ≤ t) :
+    q.Feasible (fun j => x0 j + t * d j) := by
+  obtain ⟨hA, hG, hl, hu⟩ := hR.feas
+  refine ⟨fun i => ?_, fun i => ?_, fun j l hj => ?_, fun j u hj => ?_⟩
+  · have : ∑ j, q.A i j * (x0 j + t * d j) = (∑ j, q.A i j * x0 j) + t * ∑ j, q.A i j * d j := by
+      rw [Finset.mul_sum, ← Finset.sum_add_distrib]; exact Finset.sum_congr rfl fun j _ => by ring
+    rw [this, hA i, hR.Ad i]; ring
+  · have : ∑ j, q.G i j * (x0 j + t * d j) = (∑ j, q.G i j * x0 j) + t * ∑ j, q.G i j * d j := by
+      rw [Finset.mul_sum, ← Finset.sum_add_distrib]; exact Finset.sum_congr rfl fun j _ => by ring
+    rw [this]
+    have := mul_nonpos_of_nonneg_of_nonpos ht (hR.Gd i)
+    linarith [hG i]
+  · have := mul_nonneg ht (hR.dl j l hj); linarith [hl j l hj]
+  · have := mul_nonpos_of_nonneg_of_nonpos ht (hR.du j u hj); linarith [hu j u hj]
+
+theorem ray_obj (q : QP K n p m) (x0 d : Fin n → K) (hR : Recession q x0 d) (t : K) :
+    q.obj (fun j => x0 j + t * d j) = q.obj x0 + t * ∑ j, q.c j * d j := by
+  unfold QP.obj
+  have hPx : ∀ i, ∑ j, q.P i j * (x0 j + t * d j) = ∑ j, q.P i j * x0 j := by
+    intro i
+    have : ∑ j, q.P i j * (x0 j + t * d j) = (∑ j, q.P i j * x0 j) + t * ∑ j, q.P i j * d j := by
+      rw [Finset.mul_sum, ← Finset.sum_add_distrib]; exact Finset.sum_congr rfl fun j _ => by ring
+    rw [this, hR.Pd i]; ring
+  have hdPx : ∑ i, d i * ∑ j, q.P i j * x0 j = 0 := by
+    have : ∑ i, d i * ∑ j, q.P i j * x0 j = ∑ j, x0 j * ∑ i, q.P j i * d i := by
+      simp only [Finset.mul_sum]
+      rw [Finset.sum_comm]
+      exact Finset.sum_congr rfl fun j _ => Finset.sum_congr rfl fun i _ => by rw [hR.sym i j]; ring
+    rw [this]
+    exact Finset.sum_eq_zero fun j _ => by rw [hR.Pd j]; ring
+  have h1 : ∑ i, (x0 i + t * d i) * ∑ j, q.P i j * (x0 j + t * d j) = ∑ i, x0 i * ∑ j, q.P i j * x0 j := by
+    simp only [hPx]
+    have : ∑ i, (x0 i + t * d i) * ∑ j, q.P i j * x0 j =
+        (∑ i, x0 i * ∑ j, q.P i j * x0 j) + t * ∑ i, d i * ∑ j, q.P i j * x0 j := by
+      rw [Finset.mul_sum, ← Finset.sum_add_distrib]; exact Finset.sum_congr rfl fun i _ => by ring
+    rw [this, hdPx]; ring
+  have h2 : ∑ j, q.c j * (x0 j + t * d j) = (∑ j, q.c j * x0 j) + t * ∑ j, q.c j * d j := by
+    rw [Finset.mul_sum, ← Finset.sum_add_distrib]; exact Finset.sum_congr rfl fun j _ => by ring
+  rw [h1, h2]; ring
+
+/-- **C03 ground truth, soundness of the unboundedness certificate**: below every level there is a feasible point -/
+theorem recession_sound (q : QP K n p m) (x0 d : Fin n → K) (hR : Recession q x0 d) (M : K) :
+    ∃ x, q.Feasible x ∧ q.obj x < M := by
+  set cd := ∑ j, q.c j * d j with hcd
+  have hneg : cd < 0 := hR.cd
+  set t : K := max 0 ((q.obj x0 - M) / (-cd)) + 1 with ht
+  have ht0 : 0 ≤ t := by have := le_max_left (0:K) ((q.obj x0 - M) / (-cd)); linarith
+  refine ⟨fun j => x0 j + t * d j, ray_feasible q x0 d hR t ht0, ?_⟩
+  rw [ray_obj q x0 d hR t]
+  have hpos : 0 < -cd := by linarith
+  have h1 : (q.obj x0 - M) / (-cd) < t := by have := le_max_right (0:K) ((q.obj x0 - M) / (-cd)); linarith
+  have h2 : q.obj x0 - M < t * (-cd) := by
+    have := (div_lt_iff₀ hpos).mp h1
+    linarith
+  linarith
+
+/-- non-vacuity: `1 ≤ x ≤ 0` has the Farkas certificate `w_lb = w_ub = 1` -/
+example : Farkas (K := ℚ) (n := 1) (p := 0) (m := 0)
+    { P := fun _ _ => 0, c := fun _ => 0, A := fun i => i.elim0, b := fun i => i.elim0, G := fun i => i.elim0, h := fun i => i.elim0,
+      lb := fun _ => some 1, ub := fun _ => some 0 } (fun i => i.elim0) (fun i => i.elim0) (fun _ => 1) (fun _ => 1) where
+  z_nonneg := fun i => i.elim0
+  wl_nonneg := fun _ => by norm_num
+  wu_nonneg := fun _ => by norm_num
+  wl_absent := fun _ h => by simp at h
+  wu_absent := fun _ h => by simp at h
+  stat := fun _ => by simp
+  neg := by simp
+end groundtruth
 end Piqp.C03
